@@ -145,6 +145,8 @@ pub struct World {
     pub snapshot_for: Option<SnapKey>,      // snapshot taken during this call
     pub author_verified: Option<PublicKey>, // verify_rumor_author returned Ok for this pubkey
     pub merges: nat,                        // number of MLS merges performed in this call
+    pub commits_created: nat,               // number of commits staged by this client (commit_to_pending_proposals / add / remove / ...)
+    pub stored_proposals: Seq<QueuedProposal>, // proposals handed to store_pending_proposal
     pub is_better_result: Option<(GroupId, u64, u64, EventId, bool)>, // last is_better_candidate(group, epoch, ts, id) -> result
     // append-only logs (only the snapshot-manager shims append; every contract preserves them as prefixes)
     pub better_queries: Seq<(GroupId, u64, u64, EventId)>,   // every is_better_candidate(group, epoch, ts, id) call
@@ -431,6 +433,7 @@ pub enum Proposal {
     SelfRemove,
     Custom(Box<OtherProposal>),
 }
+//@include mls_proposals_common.rs
 // (proposal iterators: see mls_proposals_vec.rs / mls_proposals_iter.rs, chosen per unit)
 
 pub struct MdkProvider<Storage: MdkStorageProvider> {
